@@ -352,6 +352,7 @@ def recorded_to_segments(value, snap_eps=None):
 def snapshot_glyph(name, glyph):
     cs, comps = glyph_points(glyph)
     return {"name": name, "contours": cs, "components": comps, "width": Fr(glyph.width),
+            "height": Fr(getattr(glyph, "height", 0) or 0),
             "anchors": [(a.name, Fr(a.x), Fr(a.y)) for a in glyph.anchors]}
 
 
